@@ -90,10 +90,12 @@ type Runner struct {
 	Restarts   int
 	// a restart from an older cache snapshot happened: known containers keep the cached
 	// (stale) resources and requirements, see known finding KF7
-	StaleRestarted      bool
-	Cond                map[string]bool // every oracle clause that has fired in this history
-	RejectedLeftPending bool            // a rejected reconfiguration left undelivered changes behind
-	NoShadow            bool            // concurrent mode: the order in which replies reach the runtime is unknown, skip runtime-view clauses
+	StaleRestarted        bool
+	Cond                  map[string]bool // every oracle clause that has fired in this history
+	RejectedLeftPending   bool            // a rejected reconfiguration left undelivered changes behind
+	RemoveLiveLeftPending bool            // a remove-live step left undelivered changes behind (KF9)
+	RemovedLive           bool            // the last remove step removed a container that had not been stopped
+	NoShadow              bool            // concurrent mode: the order in which replies reach the runtime is unknown, skip runtime-view clauses
 }
 
 // BrokenStateSuffix names known-defective states the history has already been through; checks
@@ -107,6 +109,10 @@ func (r *Runner) brokenStateSuffix(policyState bool) string {
 	sfx := ""
 	if r.Stats["update_failed"] > 0 || (!policyState && r.Stats["create_failed"] > 0) {
 		sfx += ":after-failed-request"
+	}
+	if r.RemoveLiveLeftPending && !policyState {
+		// KF9: the re-pinning of other containers caused by removing a never-stopped container could not be delivered
+		sfx += ":after-remove-of-live-container"
 	}
 	if r.Cond["C03/shared-oversubscribed"] || r.Cond["C03/empty-cpuset"] {
 		sfx += ":after-pool-drained"
@@ -163,8 +169,8 @@ var derivedCheck = map[string]bool{
 	"C01/excl-in-other": true, "C01/outside-available": true, "C01/reserved-to-nonreserved": true, "C01/reserved-mixed": true, "C01/excl-overlap": false,
 	"C02/cpuset": true, "C02/cpuset-hidden-ht": true,
 	"C03/exclusive-count": true, "C03/grant-amount": true, "C03/shares": true,
-	"C04/mems-vs-zone": true,
-	"C05/update-dead":  true, "C05/view-mismatch": true,
+	"C04/mems-vs-zone": true, "C04/fit-model": true,
+	"C05/update-dead": true, "C05/view-mismatch": true,
 	"C12/cpus-told": true, "C12/mems-told": true,
 	"C09/balloons-state": true, "C09/free-cpus": true, "C09/pool-state": true, "C09/leak-grant": true, "C09/leak-memory": true, "C09/leak-member": true, "C09/dead-holds": true, "C09/holder-uncached": true,
 }
@@ -173,6 +179,15 @@ var derivedCheck = map[string]bool{
 var policyStateCheck = map[string]bool{
 	"C03/exclusive-count": true, "C03/grant-amount": true,
 	"C09/balloons-state": true, "C09/free-cpus": true, "C09/pool-state": true, "C09/leak-grant": true, "C09/leak-memory": true, "C09/leak-member": true, "C09/dead-holds": true, "C09/holder-uncached": true,
+}
+
+// opSig names the request for signatures; a RemoveContainer of a never-stopped container is its own class
+// (its release cannot be followed by updates: RemoveContainer has no reply to carry them, see KF9).
+func (r *Runner) opSig(s *Step) string {
+	if s.Op == "remove" && r.RemovedLive {
+		return "remove-live"
+	}
+	return s.Op
 }
 
 func (r *Runner) Count(key string) { r.Stats[key]++ }
@@ -447,6 +462,7 @@ func (r *Runner) Do(s *Step) *Reply {
 		if c == nil {
 			break
 		}
+		r.RemovedLive = c.Live() // RemoveContainer without a StopContainer before it (out-of-order delivery)
 		rep.Panic = r.guard(s, func() { rep.Err = errStr(rm.RemoveContainer(p, r.M.APICtr(c, true))) })
 		if rep.Panic == "" {
 			c.State = StRemoved
@@ -510,7 +526,7 @@ func (r *Runner) Do(s *Step) *Reply {
 			}
 			for _, push := range rep.Pushed {
 				if err != nil {
-					r.applyUpdates(push, nil, "rejected-reconf-push")
+					r.applyUpdates(push, nil, "rejected-reconf-push:"+r.Inst.Policy+":"+s.Cfg.Note)
 				} else {
 					r.applyUpdates(push, nil, "reconf-push")
 				}
